@@ -13,6 +13,7 @@ formats, comments, hyperlinks, tables) is covered by the differential oracle of
 import XlModel.Lemmas.Settings
 import XlModel.Lemmas.CondFmt
 import XlModel.Lemmas.DvDelete
+import XlModel.DvRecord
 
 namespace XlModel.Props.C18
 open XlModel XlModel.Settings
@@ -670,6 +671,81 @@ theorem finding_dv_delete_overlapping_areas :
     (1, 2) ∈ rewriteRule [(1, 1), (1, 2), (1, 2)] [(1, 2)] := by decide +kernel
 
 end DvDeleteThms
+
+/-! ## the data-validation record through the builder methods, AddDataValidation and the getter -/
+
+section DvRecordThms
+open XlModel.DvRecord
+
+/-- the enum strings of the two maps (constants 1..8 in iota order) and the three error styles -/
+theorem dv_enum_facts_pinned :
+    Facts.C18.dvTypeNames = ["none", "custom", "date", "decimal", "list", "textLength", "time", "whole"] ∧
+    Facts.C18.dvOperatorNames = ["between", "equal", "greaterThan", "greaterThanOrEqual", "lessThan",
+      "lessThanOrEqual", "notBetween", "notEqual"] ∧
+    Facts.C18.dvErrorStyles = ["stop", "warning", "information"] ∧ listType = "list".toList := by decide
+
+theorem getFormula_nil (b : Bool) : getFormula b [] = [] := by cases b <;> decide
+
+/-- `dv_set_get_roundtrip`: for EVERY DataValidation structure, what GetDataValidations returns
+after AddDataValidation is the structure itself with the two formulas decoded (Formula1 of a
+list validation as a drop-list text, every other formula only unescaped); every other field —
+flags, sqref, type, operator, the five optional texts, nil or set — is returned unchanged -/
+theorem dv_set_get_roundtrip (dv : DV) :
+    getDV (addDV dv) =
+      { dv with formula1 := getFormula (dv.type == listType) dv.formula1,
+                formula2 := getFormula false dv.formula2 } := by
+  obtain ⟨ab, e, es, et, op, p, pt, dd, sem, sim, sq, ty, f1, f2⟩ := dv
+  simp only [getDV, addDV]
+  congr 1
+  · cases f1 with
+    | nil => simp [getFormula_nil]
+    | cons c r => simp
+  · cases f2 with
+    | nil => simp [getFormula_nil]
+    | cons c r => simp
+
+/-- SetRange with string formulas reads back as set: Formula2 always, Formula1 for every
+validation type except "list" (there a quoted text is a drop list by design) -/
+theorem dv_setrange_roundtrip (dv : DV) (a b : List Char) (t o : Nat)
+    (ht : (enumName Facts.C18.dvTypeNames t == listType) = false) :
+    (getDV (addDV (setRange dv (.str a) (.str b) t o))).formula1 = a ∧
+    (getDV (addDV (setRange dv (.str a) (.str b) t o))).formula2 = b := by
+  rw [dv_set_get_roundtrip]
+  simp only [setRange, genFormula, ht]
+  exact ⟨dv_formula_roundtrip a, dv_formula_roundtrip b⟩
+
+/-- SetDropList reads back as the quoted joined list, with type "list", for every key list
+within the length limit whose joined text does not start with `=` -/
+theorem dv_droplist_record_roundtrip (dv d : DV) (keys : List (List Char))
+    (heq : ['='].isPrefixOf (joinKeys keys) = false) (h : setDropListDV dv keys = some d) :
+    (getDV (addDV d)).formula1 = '"' :: joinKeys keys ++ ['"'] ∧ (getDV (addDV d)).type = listType := by
+  unfold setDropListDV at h
+  cases hs : setDropList (joinKeys keys) with
+  | none => simp [hs] at h
+  | some f =>
+    simp [hs] at h; subst h
+    rw [dv_set_get_roundtrip]
+    simp only [beq_self_eq_true, getFormula, if_true]
+    have hlen : ¬ Facts.MaxFieldLength < utf16Len (joinKeys keys) := by
+      intro hl; simp [setDropList, hl] at hs
+    have := droplist_roundtrip (joinKeys keys) hlen heq
+    rw [hs] at this
+    simp only [Option.map_some, Option.some.injEq] at this
+    exact ⟨this, trivial⟩
+
+/-- SetError / SetInput read back: message, title, flag; an unknown style falls back to "stop" -/
+theorem dv_seterror_setinput_roundtrip (dv : DV) (style : Nat) (t m it im : List Char) :
+    let d := getDV (addDV (setInput (setError dv style t m) it im))
+    d.error = some m ∧ d.errorTitle = some t ∧ d.showErrorMessage = true ∧
+    d.prompt = some im ∧ d.promptTitle = some it ∧ d.showInputMessage = true ∧
+    (¬ (1 ≤ style ∧ style ≤ 3) → d.errorStyle = some "stop".toList) := by
+  simp only [dv_set_get_roundtrip, setInput, setError]
+  refine ⟨trivial, trivial, trivial, trivial, trivial, trivial, ?_⟩
+  intro h
+  simp only [h, if_false]
+  decide
+
+end DvRecordThms
 
 /-! ## conditional formats: type tables and list semantics -/
 
